@@ -90,6 +90,9 @@ pub struct EvalOut {
     pub flipped: BTreeSet<String>,
     /// number of enabled driver actions at every step (for schedule enumeration)
     pub branching: Vec<u8>,
+    /// transitions that the hook log did not report (seen through the snapshot instead)
+    pub hook_log_gaps: usize,
+    pub pending_signal_sightings: usize,
 }
 
 impl EvalOut {
@@ -294,28 +297,12 @@ pub fn run_eval(w: &mut World, plan: &Plan, sched: &Sched, opts: &Opts) -> EvalO
         let trans = take_transitions();
         for (j, from, to) in trans.iter() {
             if opts.monitors {
-                if to != "Pruned" && kind_of_state(from) != kind_of_state(to) {
-                    res.v("C17", "kind-changed", format!("{} {} -> {}", j, from, to));
-                }
-                if is_fin(from) && !(is_fin(to) || to == "Pruned") {
-                    res.v("C17", "finished-became-unfinished", format!("{} {} -> {}", j, from, to));
-                }
-                if from.contains("FinishedSuccess") && !to.contains("FinishedSuccess") {
-                    res.v("C17", "success-became-something-else", format!("{} {} -> {}", j, from, to));
-                }
-                if to.contains("ReadyToRun") {
-                    let c = offers_in_log.entry(j.clone()).or_insert(0);
-                    *c += 1;
-                    if *c > 1 {
-                        res.v("C17", "offered-twice", format!("{} {} -> {}", j, from, to));
-                    }
-                }
-                if from.contains("FinishedSkipped") && to.contains("FinishedUpstreamFailure") {
-                    res.flipped.insert(j.clone());
-                }
+                lifecycle_step(&mut res, j, from, to, &mut offers_in_log);
                 if let Some(prev) = states_seen.get(j) {
                     if prev != from {
-                        res.v("C17", "transition-log-gap", format!("{} was {} but moves from {}", j, prev, from));
+                        // the hook log missed a transition (a state assigned without the macro):
+                        // that is a property of the instrumentation, not of C17 - resynchronise
+                        res.hook_log_gaps += 1;
                     }
                 }
             }
@@ -389,10 +376,19 @@ pub fn run_eval(w: &mut World, plan: &Plan, sched: &Sched, opts: &Opts) -> EvalO
                 if rc != cleanup.contains(*j) {
                     res.v("C17", "cleanup-set-vs-state", format!("{} is {} but offered={}", j, s_, cleanup.contains(*j)));
                 }
-                if let Some(seen) = states_seen.get(*j) {
-                    if seen != s_ {
-                        res.v("C17", "state-vs-transition-log", format!("{} is {} log says {}", j, s_, seen));
+                let resync = match states_seen.get(*j) {
+                    Some(seen) if seen != s_ => Some(seen.clone()),
+                    Some(_) => None,
+                    None => {
+                        states_seen.insert(j.to_string(), s_.to_string());
+                        None
                     }
+                };
+                if let Some(seen) = resync {
+                    // a transition the hook log did not see: judge it like a logged one
+                    res.hook_log_gaps += 1;
+                    lifecycle_step(&mut res, j, &seen, s_, &mut offers_in_log);
+                    states_seen.insert(j.to_string(), s_.to_string());
                 }
             }
             match g.next_job_ready_to_run() {
@@ -438,7 +434,8 @@ pub fn run_eval(w: &mut World, plan: &Plan, sched: &Sched, opts: &Opts) -> EvalO
                 res.v("C17", "finished-then-unfinished", "");
             }
             if snap0.pending_signals != 0 {
-                res.v("C17", "signals-pending-between-calls", format!("{}", snap0.pending_signals));
+                // internal bookkeeping, not a clause of C17: counted, not reported
+                res.pending_signal_sightings += 1;
             }
             // ---- C07 online: blocked jobs are never offered
             {
@@ -828,6 +825,29 @@ pub fn run_eval(w: &mut World, plan: &Plan, sched: &Sched, opts: &Opts) -> EvalO
         }
     }
     res
+}
+
+/// C17 lifecycle clauses for one state transition of one job
+fn lifecycle_step(res: &mut EvalOut, j: &str, from: &str, to: &str, offers: &mut BTreeMap<String, usize>) {
+    if to != "Pruned" && kind_of_state(from) != kind_of_state(to) {
+        res.v("C17", "kind-changed", format!("{} {} -> {}", j, from, to));
+    }
+    if is_fin(from) && !(is_fin(to) || to == "Pruned") {
+        res.v("C17", "finished-became-unfinished", format!("{} {} -> {}", j, from, to));
+    }
+    if from.contains("FinishedSuccess") && !to.contains("FinishedSuccess") {
+        res.v("C17", "success-became-something-else", format!("{} {} -> {}", j, from, to));
+    }
+    if to.contains("ReadyToRun") && !from.contains("ReadyToRun") {
+        let c = offers.entry(j.to_string()).or_insert(0);
+        *c += 1;
+        if *c > 1 {
+            res.v("C17", "offered-twice", format!("{} {} -> {}", j, from, to));
+        }
+    }
+    if from.contains("FinishedSkipped") && to.contains("FinishedUpstreamFailure") {
+        res.flipped.insert(j.to_string());
+    }
 }
 
 fn leave_failed_output(w: &mut World, s: usize, j: &str, fail_mode: u8) {
